@@ -64,25 +64,25 @@ theorem occList_next (P : Nat → Bool) :
       refine ⟨?_, h2, by omega, by omega⟩
       rw [h1]; congr 1; omega
 
-theorem occPositions_eq (s : Slots) : occPositions s = occList (occ s) 0 s.length := by
+theorem occPositions_eq (s : Slots) : occPositions s = occList (occAt s) 0 s.length := by
   unfold occPositions
   rw [occList_eq_filter, List.range_eq_range']
 
 theorem countOps_eq_occList (s : Slots) (k : Nat) :
-    countOps s = (occList (fun i => occ s (i - k)) k s.length).length := by
+    countOps s = (occList (fun i => occAt s (i - k)) k s.length).length := by
   induction s generalizing k with
   | nil => rfl
   | cons a t ih =>
     simp only [List.length_cons, occList, Nat.sub_self]
-    rw [countOps_cons]
-    have hcongr : occList (fun i => occ (a :: t) (i - k)) (k + 1) t.length
-        = occList (fun i => occ t (i - (k + 1))) (k + 1) t.length := by
+    rw [countOps_cons_isSome]
+    have hcongr : occList (fun i => occAt (a :: t) (i - k)) (k + 1) t.length
+        = occList (fun i => occAt t (i - (k + 1))) (k + 1) t.length := by
       apply occList_congr
       intro i h1 _
       have : i - k = (i - (k + 1)) + 1 := by omega
       simp only [this, occ_cons_succ]
     rw [hcongr]
-    have h0 : occ (a :: t) 0 = a.isSome := by simp [occ, slotAt]
+    have h0 : occAt (a :: t) 0 = a.isSome := by simp [occAt, slotAt]
     rw [h0]
     have := ih (k + 1)
     cases a <;> simp <;> omega
@@ -105,9 +105,9 @@ theorem nthIter_canon (nv : Nat) (nb : Option Nat) (s : Slots) :
     intro hj
     rw [occPositions_eq] at hj ⊢
     rw [occList_head]
-    have hf : (canon nv nb s).getFirstP = nextFrom (occ s) 0 s.length := getFirstP_canon nv nb s
+    have hf : (canon nv nb s).getFirstP = nextFrom (occAt s) 0 s.length := getFirstP_canon nv nb s
     simp only [nthIter, hf]
-    cases h : nextFrom (occ s) 0 s.length with
+    cases h : nextFrom (occAt s) 0 s.length with
     | none =>
       rw [← occList_head, List.getElem?_eq_getElem hj] at h
       cases h
@@ -116,14 +116,14 @@ theorem nthIter_canon (nv : Nat) (nb : Option Nat) (s : Slots) :
     intro hj
     have hprev := ih (by omega)
     rw [occPositions_eq] at hj hprev ⊢
-    obtain ⟨h1, h2, _, h4⟩ := occList_next (occ s) s.length 0 j _ hprev
+    obtain ⟨h1, h2, _, h4⟩ := occList_next (occAt s) s.length 0 j _ hprev
     rw [h1]
     obtain ⟨op, hop⟩ := occ_iff.mp h2
     have hstep : (canon nv nb s).nthIter (j + 1)
         = (((canon nv nb s).getNode ((canon nv nb s).nthIter j)).bind (·.nextP)).getD 0 := rfl
     rw [hstep, getNode_canon, hop]
     simp only [Option.map_some, Option.bind_some, canonNode, nextOcc, Nat.zero_add]
-    cases h : nextFrom (occ s) ((canon nv nb s).nthIter j + 1) (s.length - ((canon nv nb s).nthIter j + 1)) with
+    cases h : nextFrom (occAt s) ((canon nv nb s).nthIter j + 1) (s.length - ((canon nv nb s).nthIter j + 1)) with
     | none =>
       rw [Nat.zero_add] at h1
       rw [h, List.getElem?_eq_getElem hj] at h1
